@@ -9,7 +9,7 @@ OUT=${1:-$(mktemp -d /tmp/verif-cov.XXXXXX)}
 TB=$HOME/.rustup/toolchains/nightly-x86_64-unknown-linux-gnu/lib/rustlib/x86_64-unknown-linux-gnu/bin
 mkdir -p "$OUT/prof"
 cd "$HERE/harness"
-RUSTFLAGS="--cfg reclass_rs_verif -A unexpected_cfgs -C instrument-coverage" CARGO_NET_OFFLINE=true \
+LLVM_PROFILE_FILE="$OUT/prof/build-%p-%m.profraw" RUSTFLAGS="--cfg reclass_rs_verif -A unexpected_cfgs -C instrument-coverage" CARGO_NET_OFFLINE=true \
   cargo +nightly build --offline --target-dir "$OUT/target" 2>&1 | tail -2
 cd "$HERE"
 LLVM_PROFILE_FILE="$OUT/prof/rvh-%p-%m.profraw" VERIF_RVH="$OUT/target/debug/rvh" python3 tools/coverage_cases.py
